@@ -83,7 +83,7 @@ func c11D11bCase(ctx *Ctx, e c11d11bFn, args []cty.Value) {
 }
 
 func c11D11bCorrespondence(ctx *Ctx) {
-	per := ctx.N(300, 6000)
+	per := ctx.N(300, 4000)
 	for _, e := range c11d11bFuncs {
 		ps := e.f.Params()
 		vp := e.f.VarParam()
@@ -128,7 +128,7 @@ func c11D11bCorrespondence(ctx *Ctx) {
 		perFn := per
 		if e.model == "range" {
 			// a long progression costs the MODEL a thousand big-float additions on a list it appends to: fewer cases
-			perFn = ctx.N(25, 300)
+			perFn = ctx.N(25, 150)
 		}
 		for k := 0; k < perFn; k++ {
 			n := len(ps)
@@ -291,7 +291,7 @@ func c11D11bOracle(model string, args []cty.Value) *oracle {
 }
 
 func c11D11bGlueCorrespondence(ctx *Ctx) {
-	per := ctx.N(250, 4000)
+	per := ctx.N(250, 2500)
 	for _, e := range c11d11bGlue {
 		ps := e.f.Params()
 		fn := c11Fn{e.goVar, e.f, true}
